@@ -241,6 +241,18 @@ pub fn scenario(seed: u64, opts: &Opts) -> Made {
     let mut verifies = Vec::new();
     let src = scen::peer4(30);
     let send = |w: &mut World, m: &Message, rng: &mut Rng| {
+        // now and then a record of a type the daemon does not know (HTTPS, KEY ...) sits among the others: it is
+        // to be stepped over, the records behind it count as always
+        let mut with_unknown;
+        let m = if rng.chance(1, 6) {
+            with_unknown = m.clone();
+            let at = rng.usize(with_unknown.answers.len() + 1);
+            let rdata: Vec<u8> = (0..1 + rng.usize(24)).map(|k| (k * 37 + 3) as u8).collect();
+            with_unknown.answers.insert(at, wire::rec(&wire::name("svc-binding.local"), *rng.pick(&[65u16, 25, 99]), 1, 120, wire::RData::Raw(rdata)));
+            &with_unknown
+        } else {
+            m
+        };
         let data = wire::encode(m, if rng.chance(1, 2) { wire::Compression::Max } else { wire::Compression::None });
         if faulty {
             w.inject_faulty(0, h, 2, src, data);
